@@ -33,7 +33,11 @@ def scenarios():
             out.append({"name": "run-%s-%s" % ("seq" if jobs is None else "j3", git), "cmd": "run", "jobs": jobs, "git": git, "prior": git == "none"})
     # git integration switched off in a project that IS a repository (with uncommitted changes): versions carry no commit
     out.append({"name": "run-seq-git-disabled-in-a-repository", "cmd": "run", "jobs": None, "git": "disabled-repo", "prior": False})
-    out.append({"name": "run-j3-git-disabled-in-a-repository", "cmd": "run", "jobs": 3, "git": "disabled-repo", "prior": True})
+    out.append({"name": "run-j3-git-disabled-in-a-repository", "cmd": "run", "jobs": 3, "git": "disabled-repo", "prior": True, "complete_only": True})
+    # other ways of having (or not having) uncommitted changes: staged only, a staged new file, a deleted tracked
+    # file, untracked files only (not a change of the committed state)
+    for g in ("staged", "staged-new-file", "deleted", "untracked-only"):
+        out.append({"name": "run-seq-git-" + g, "cmd": "run", "jobs": None, "git": g, "prior": False, "complete_only": True})
     out.append({"name": "run-j3-unrelated-children", "cmd": "run", "jobs": 3, "git": "none", "prior": False, "prefork": [[15, 0], [40, 0], [90, 0], [160, 0]]})
     out.append({"name": "run-seq-unrelated-children", "cmd": "run", "jobs": None, "git": "none", "prior": True, "prefork": [[10, 0], [60, 0], [140, 0], [250, 0]]})
     # an earlier, unrecorded (failed) execution left <name>.task.T behind and the clock yields T again
@@ -72,6 +76,16 @@ def build(scroot, scn):
         realrun.git(pr.root, "commit", "-q", "-m", "c0")
         if scn["git"] in ("dirty", "disabled-repo"):
             open(os.path.join(pr.root, "src.txt"), "a").write("uncommitted\n")
+        elif scn["git"] == "staged":
+            open(os.path.join(pr.root, "src.txt"), "a").write("staged, nothing unstaged\n")
+            realrun.git(pr.root, "add", "src.txt")
+        elif scn["git"] == "staged-new-file":
+            open(os.path.join(pr.root, "new.txt"), "w").write("new\n")
+            realrun.git(pr.root, "add", "new.txt")
+        elif scn["git"] == "deleted":
+            os.unlink(os.path.join(pr.root, "src.txt"))
+        elif scn["git"] == "untracked-only":
+            open(os.path.join(pr.root, "scratch-notes.txt"), "w").write("never added\n")
     if scn["prior"]:
         pr.cond(["run", "//:ok1"], timeout=60, clock=[1_600_000_000])
         pr.cond(["run", "//a/b:ok3", "--again"], timeout=60, clock=[1_600_000_100])
@@ -285,7 +299,8 @@ def crash_case(scn, k, nth, pr, extra, sc):
         rows_before = pr.rows()
         head = None
         if scn["git"] != "none":
-            head = (realrun.git(pr.root, "rev-parse", "HEAD"), scn["git"] == "dirty") if scn["git"] != "disabled-repo" else (None, False)
+            # dirty = the committed state differs from index or work tree for tracked paths (independent porcelain query)
+            head = (realrun.git(pr.root, "rev-parse", "HEAD"), bool(realrun.git(pr.root, "status", "--porcelain", "--untracked-files=no"))) if scn["git"] != "disabled-repo" else (None, False)
         argv = command(scn, pr, extra, sc.root)
         note = os.path.join(sc.root, "crash-note.json")
         kw = {}
@@ -386,6 +401,9 @@ def main(tier, n=None):
             cases += [(scn, None, i) for i in range(1, 4)]
             ks = sorted({kk for site, occ in c["sites"].items() if site.startswith(("execution/ops/run_task_executable.py", "execution/version_index.py", "task_types/run.py")) for kk in (occ[:2] + occ[-1:])})
             cases += [(scn, kk, 0) for kk in (ks if tier == "thorough" else ks[::3])]
+            continue
+        if scn.get("complete_only") and tier == "quick":
+            # variants of the project's git state: what matters is the row the complete run records
             continue
         if scn.get("prefork"):
             # unrelated children matter for the crash-free outcome (who gets recorded), not per crash point
